@@ -242,8 +242,11 @@ def _shard_main(modname: str, tier: str, seed: int, shard: int, nshards: int, q:
         os.environ["PYTHONHASHSEED"] = "0"
         sys.setrecursionlimit(10000)
         sys.stderr = _Tail()  # fandango prints swallowed exceptions to stderr; keep only a tail
-        import_fandango()
+        setup_env()
         mod = importlib.import_module(modname)
+        if hasattr(mod, "pre_import"):
+            mod.pre_import()  # e.g. install the working tree's C++ reader before fandango is imported
+        import_fandango()
         ctx = Ctx(mod.PROP, tier, seed, shard, nshards)
         mod.run_shard(ctx)
         q.put(("ok", shard, ctx.result()))
@@ -257,6 +260,8 @@ def run_check(modname: str, tier: str, seed: int, replay_path: Optional[str]) ->
     mod = importlib.import_module(modname)
     prop = mod.PROP
 
+    if hasattr(mod, "pre_import"):
+        mod.pre_import()
     if replay_path:
         import_fandango()
         with open(replay_path) as f:
